@@ -27,6 +27,7 @@
 //! Reader observation: END <out> <unconsumed> | ERR<kind> <out of earlier calls> | CAP <out> | PANIC | SKIP.
 //! xz_spec / lzip_spec: the "implementation" observed is liblzma (the reference the format
 //! specification of XzSpec.v stands for): OK <content> | REJECT.
+// requires-verif-hooks (hook H3: FilterConfig / FilterType re-exports); left out of guard-off builds by build.rs
 use crate::encutil::*;
 use crate::reflib;
 use crate::util::*;
@@ -797,6 +798,43 @@ pub fn gen(rng: &mut Rng, tier: &str, dist: &mut Dist) -> Vec<String> {
     for parts in [vec![], vec![vec![]]] {
         let g = LzGen { dict: 65536, ms: None, opts: gen_opts(rng, false, 1 << 16), parts };
         push_lzip(&mut cmds, &g, rng, dist);
+    }
+    // dictionary sizes at the borders of the formats' size encodings (XZ: 2^n and 3*2^(n-1), the
+    // property byte rounds UP to the next of them; LZIP: 2^n minus k/16 of it): a*2^k and its
+    // neighbours.  Small ones with a match near the far end of the dictionary (a reader that
+    // allocates less than the writer used fails on it), larger ones for the header byte alone.
+    for k in 10..=(if tier == "thorough" { 24 } else { 20 }) {
+        for a in [4u64, 5, 6, 7] {
+            for e in [-1i64, 0, 1] {
+                let dv = (a << k) as i64 + e;
+                if !(4096..=(1i64 << 27)).contains(&dv) {
+                    continue;
+                }
+                let dv = dv as u32;
+                let far = dv <= 20_000;
+                let data = if far {
+                    let noise: Vec<u8> = (0..dv as usize - 64).map(|_| rng.next() as u8).collect();
+                    let mut x = noise.clone();
+                    x.extend_from_slice(&noise[..512]);
+                    x
+                } else {
+                    gen_small_data(rng, k as usize, 200, dist)
+                };
+                let mut opts = gen_opts(rng, true, 1 << 16);
+                opts.dict = dv;
+                opts.depth = 0;
+                opts.nice = 64;
+                dist.bump(if far { "dict_border.far_match" } else { "dict_border.header_only" });
+                let g = XzGen { check: 1, bs: None, filters: vec![], opts: opts.clone(), parts: vec![data.clone()], flushes: vec![] };
+                push_xz(&mut cmds, &g, rng, dist);
+                let mut lo = opts.clone();
+                lo.lc = 3;
+                lo.lp = 0;
+                lo.pb = 2;
+                let g = LzGen { dict: dv, ms: None, opts: lo, parts: vec![data] };
+                push_lzip(&mut cmds, &g, rng, dist);
+            }
+        }
     }
     for i in 0..n {
         if i % 3 != 2 {
